@@ -4,7 +4,7 @@ Utilities to compare 2 GraphQL schema for incompatibilities.
 """
 
 import itertools
-from typing import Dict, Iterator, Optional, Tuple, Type, TypeVar, Union
+from typing import Any, Dict, Iterator, Optional, Tuple, Type, TypeVar, Union
 
 from .. import (
     SPECIFIED_DIRECTIVES,
@@ -317,7 +317,9 @@ def _diff_directive_arguments(
                 or (not old_arg.has_default_value and new_arg.has_default_value)
                 or (
                     old_arg.has_default_value
-                    and old_arg.default_value != new_arg.default_value
+                    and not _is_same_value(
+                        old_arg.default_value, new_arg.default_value
+                    )
                 )
             ):
                 yield DirectiveArgumentDefaultValueChange(
@@ -360,7 +362,9 @@ def _diff_field_arguments(
                 or (not old_arg.has_default_value and new_arg.has_default_value)
                 or (
                     old_arg.has_default_value
-                    and old_arg.default_value != new_arg.default_value
+                    and not _is_same_value(
+                        old_arg.default_value, new_arg.default_value
+                    )
                 )
             ):
                 yield FieldArgumentDefaultValueChange(
@@ -370,6 +374,21 @@ def _diff_field_arguments(
     for name, new_arg in new_args.items():
         if name not in old_args:
             yield FieldArgumentAdded(parent, new_field, new_arg)
+
+
+def _is_same_value(old: Any, new: Any) -> bool:
+    # ``1 == True == 1.0`` in Python while they are distinct GraphQL values.
+    if isinstance(old, (list, tuple)) and isinstance(new, (list, tuple)):
+        return len(old) == len(new) and all(
+            _is_same_value(o, n) for o, n in zip(old, new)
+        )
+    if type(old) is not type(new):
+        return False
+    if isinstance(old, dict):
+        return old.keys() == new.keys() and all(
+            _is_same_value(v, new[k]) for k, v in old.items()
+        )
+    return bool(old == new)
 
 
 def _compatible(change: TSchemaChange) -> TSchemaChange:
@@ -525,7 +544,9 @@ def _diff_input_types(old: Schema, new: Schema) -> Iterator[SchemaChange]:
                     )
                     or (
                         old_field.has_default_value
-                        and old_field.default_value != new_field.default_value
+                        and not _is_same_value(
+                            old_field.default_value, new_field.default_value
+                        )
                     )
                 ):
                     yield InputFieldDefaultValueChange(
